@@ -4,19 +4,19 @@ import json
 CHECKS = {
     "C17": dict(
         text="Lean 4 theorems over the executable model of uniform_quantize_tensor.py: scale positive/finite-or-rejected, symmetric zero point 0, zero exactly representable, codes in (narrow) range, monotonicity under IEEE rounding (all for every rational input, float32/float64), and the exact half-step / identity / coverage laws in ideal arithmetic; the model is tied bit-exactly to the code by the arith correspondence (incl. all 4/8-bit codes).",
-        note="IEEE-rounded versions of the round-trip laws (dq_q, q_dq) and the zero-point range under rounding are currently covered by the correspondence+oracle only, the proved versions are ideal-arithmetic; trusted base in evidence.trusted_base",
+        note="both ideal-arithmetic (QProps/C17) and IEEE-rounded (QProps/C17b: zp_in_range, q_dq_rounded, dq_q_rounded with explicit float32 slack) versions are proved; finding D14 (scale=inf when max-min overflows float32) is recorded, keyed by its witness class; trusted base in evidence.trusted_base",
         design="§6 C17",
     ),
 }
 CHECKS.update({
     "C11": dict(
         text="Lean 4 theorems: for every recipe state, regex semantics (re.search is a parameter) and query, the nested loops of get_quantization_configs equal 'the last applicable rule in scope/insertion order wins, default no-quantize' (resolve_eq_spec); whatever is resolved passes the support check (resolve_sound); a failed add is a ValueError and leaves the state unchanged; '*' resets a scope. The state reached by a history is tied to the code by step-by-step correspondence over all histories of length <= 2 (reduced alphabet) and sampled longer ones, plus an independent declarative oracle.",
-        note="the declarative characterisation of the state after an arbitrary history (survivor rules) is not yet a theorem; it is covered by the exhaustive/sampled correspondence and the independent oracle",
+        note="history theorems (QProps/C11b): the state after ANY history of add calls is characterised declaratively (history_rules, history_scope_order, history_invariant) and resolution after a history equals the spec (history_resolve); re.search is a parameter of the model (assumed to be a function of pattern and string)",
         design="§6 C11",
     ),
     "C12": dict(
         text="Lean 4 theorems: every constructible OpQuantizationConfig survives to_dict -> from_dict (cfg_roundtrip, all field values), every exported rule reloads as the same add call (rule_reload), every shipped recipe loads and the default recipes are fixpoints of load;get (kernel evaluation over the recipe table regenerated from the live tree). Reload equality of whole recipes, equal resolution and byte-identical quantize() output are checked on the real code for generated histories.",
-        note="full-state reload theorem (induction over scopes under the reachable-state invariant) not proved yet; byte-identical output also relies on the flatbuffer writer being deterministic (external)",
+        note="C12.reload_reachable: every state reachable by a history reloads (get -> JSON -> load) to itself; byte-identical quantize() output additionally relies on the flatbuffer writer being deterministic (external, executed)",
         design="§6 C12",
     ),
     "C13": dict(
@@ -28,7 +28,7 @@ CHECKS.update({
 CHECKS.update({
     "C01": dict(
         text="Lean 4 theorems: every single graph transformation (insert QUANTIZE / insert DEQUANTIZE / quantize tensor) preserves the decidable well-formedness predicate WF.modelOK (indices in range, unique names, single producer, valid execution order, valid graph/signature I/O); the whole transformation performer with its op-id maps preserves it for consistent chain-free instruction lists (performer_wf); instruction generation + performer preserve it for every request set of the closed shape the registered algorithms produce (modify_wf); inserted names are fresh, opcode indices valid. The interpreter clause is executed in a sandboxed child on every generated case.",
-        note="end-to-end link 'materialisation emits requests of that closed shape' is being proved (QProofs/PipelineWF); until it lands it is covered by the bit-exact pipeline correspondence, which also evaluates WF.modelOK on the model's own output for every case; interpreter allocate/invoke is runtime behaviour (executed, not proved)",
+        note="end-to-end theorem C01.quantize_wf: for every model/recipe state in the converter normal form NF (QProofs/PipelineWF.NF: well-formed tagged input, no blockwise weights, graph inputs not constants, slot-role/mandatory-operand conditions), every regex semantics and statistics, quantize() raises or returns a WF.modelOK graph; the pipeline correspondence additionally evaluates WF.modelOK on the model's own output for every generated case (also outside NF); interpreter allocate/invoke is runtime behaviour (executed, not proved)",
         design="§6 C01",
     ),
     "C02": dict(
